@@ -173,19 +173,32 @@ def run(R):
     ra = repo.fn("asynq_to_async.resolve_awaitables")
     par = q.param_names(ra.node)[0]
     arms = {}
-    for s_ in ra.node.body:
-        if isinstance(s_, ast.If):
-            k, subj, pos = q.atom_test(s_.test)
-            if k == "isinstance" and subj[0] == par:
-                arms[subj[1]] = s_
-            elif k == "isnone" and subj == par:
-                arms["None"] = s_
+    default_raise = []
+
+    def collect(stmts):
+        for s_ in stmts:
+            if isinstance(s_, ast.If):
+                k, subj, pos = q.atom_test(s_.test)
+                if k == "isinstance" and subj[0] == par:
+                    arms[subj[1]] = s_
+                elif k == "isnone" and subj == par:
+                    arms["None"] = s_
+                # an if/elif chain continues in orelse
+                if s_.orelse:
+                    collect(s_.orelse)
+            elif isinstance(s_, ast.Raise):
+                default_raise.append(s_)
+    collect(ra.node.body)
+
+    class _Arm(object):
+        def __init__(self, node):
+            self.body = node.body
     for kind in ("list", "tuple", "dict", "None", "Awaitable", "ConstFuture"):
         R.check(kind in arms, "C15.STRUCT", ra.qualname + ":" + kind, R.site(ra), "resolve_awaitables handles %s" % kind, "resolve_awaitables no longer handles %s" % kind)
 
     def ret_of(kind):
         a = arms.get(kind)
-        rs = [n.value for n in ast.walk(a) if isinstance(n, ast.Return)] if a is not None else []
+        rs = [n.value for st_ in a.body for n in ast.walk(st_) if isinstance(n, ast.Return)] if a is not None else []
         return rs[0] if len(rs) == 1 else None
     gl = "await _gather([resolve_awaitables(item) for item in %s])" % par
     r = ret_of("list")
@@ -197,7 +210,7 @@ def run(R):
     r = ret_of("dict")
     okd = isinstance(r, ast.DictComp) and q.src(r.generators[0].iter).startswith("zip(%s.keys()," % par) and isinstance(r.key, ast.Name)
     R.check(okd, "C15.STRUCT", ra.qualname + ":dict-shape", R.site(ra), "a dict resolves to a dict with the same keys in the same order", "the dict arm does not rebuild the dict from its own keys in order")
-    raises = [n for n in ra.node.body if isinstance(n, ast.Raise)]
+    raises = default_raise
     R.check(len(raises) == 1 and (q.call_name(raises[0].exc) == "TypeError"), "C15.STRUCT", ra.qualname + ":default", R.site(ra),
             "anything else raises TypeError (as unwrap does)", "an unsupported yielded object no longer raises TypeError")
     # ---- GATHER
@@ -212,11 +225,13 @@ def run(R):
             "_gather does not wait for all awaitables (asyncio.wait ... ALL_COMPLETED) before producing results or raising", gcfg.fmt_path(p) if p else None)
     okr = False
     for n in rets:
-        v = n.ast.value
-        if isinstance(v, ast.ListComp) and isinstance(v.elt, ast.Call) and q.attr_call(v.elt)[1] == "result" and len(v.generators) == 1 and not v.generators[0].ifs:
-            tasks_name = q.src(v.generators[0].iter)
-            tv = common.assigned_values(g.node, tasks_name)
-            okr = len(tv) == 1 and isinstance(tv[0][1], ast.ListComp) and q.call_name(tv[0][1].elt) == "asyncio.ensure_future" and q.src(tv[0][1].generators[0].iter) == gp
+        comp = kit.as_comprehension(g.node, n.ast.value)
+        if comp is not None and not comp[3] and isinstance(comp[0], ast.Call) and q.attr_call(comp[0])[1] == "result" and q.src(q.attr_call(comp[0])[0]) == comp[1] and isinstance(comp[2], ast.Name):
+            tasks_name = comp[2].id
+            tv = [v for k, v in common.assigned_values(g.node, tasks_name) if k == "expr"]
+            tcomp = kit.as_comprehension(g.node, tv[0] if len(tv) == 1 and not (isinstance(tv[0], ast.List) and not tv[0].elts) else comp[2])
+            okr = tcomp is not None and not tcomp[3] and isinstance(tcomp[0], ast.Call) and q.call_name(tcomp[0]) == "asyncio.ensure_future" \
+                and [q.src(a) for a in tcomp[0].args] == [tcomp[1]] and q.src(tcomp[2]) == gp
     R.check(okr, "C15.GATHER", g.qualname + ":per-task", R.site(g),
             "each awaitable becomes a task (input order) and its outcome is read with task.result(): the first failure in structure order is raised, and a value "
             "that happens to be an exception object stays a value",
